@@ -1,1 +1,307 @@
-(* placeholder *)
+(* Event-level abstraction of the replication of the PARENT LINK of ONE synchronized child entity of
+   bevy_sync.  Unlike component values (Values.v) there is NO "applied from the network, swallow the
+   next detection" token for parents: a peer that applies a link from the network re-announces it.
+
+   Rust: /repo/src/server/track.rs  entity_parented_on_server, client/track.rs entity_parented_on_client,
+         server/receiver.rs + client/receiver.rs (Message::EntityParented), server/initial_sync.rs
+         (the snapshot contains one EntityParented per parented synchronized entity).
+   Frame-level model: theories/Sync/Model.v  entity_parented_server, entity_parented_client,
+         CSetParentSrv, CSetParentCli, add_child, set_parent_twice, parent_differs, snapshot_parent_msgs.
+
+   What is kept of a peer: the child's current parent (as a uuid) and Bevy's Changed<Parent> flag as
+   seen by the peer's announcing system.  The flag is raised by a local set_parent AND by a link
+   applied from the network (add_child stamps the Parent component; the receivers call it only when
+   the parent differs).  The host relays EVERY EntityParented it handles to all the other clients,
+   whether or not it changed anything (server/receiver.rs: repeat_except_for_client is outside the if).
+
+   Everything here is executable (total functions, decidable validity): the model is meant to be
+   run against real traces as well as reasoned about (ParentsProofs.v). *)
+From Coq Require Import NArith List Lia.
+From stdpp Require Import gmap list.
+
+Definition peer := N.   (* 0 = host *)
+Definition puid := N.   (* uuid of a (candidate) parent entity *)
+Definition host : peer := 0%N.
+
+Record ppeer := PPeer {
+  par : option puid;     (* the child's parent on this peer, None = no Parent component *)
+  changed : bool         (* Changed<Parent> not yet seen by entity_parented_on_{server,client} *)
+}.
+
+Record pstate := PState {
+  pp : gmap peer ppeer;
+  pconn : list peer;                          (* connected clients, in connection order *)
+  plinks : gmap (peer * peer) (list puid)     (* reliable ordered channel src -> dst, head = oldest *)
+}.
+
+Inductive pevent :=
+| PSet (p : peer) (u : puid)     (* the application on p makes the child a child of u *)
+| PAnnounce (p : peer)           (* entity_parented_on_server / _on_client of p runs *)
+| PDeliver (src dst : peer)      (* dst handles the oldest EntityParented of src -> dst *)
+| PJoin (c : peer).              (* c connects; the host answers with the snapshot *)
+
+Global Instance pevent_eq_dec : EqDecision pevent.
+Proof. solve_decision. Defined.
+
+(* ---------- getters (total, with defaults) ------------------------------------------------ *)
+
+Definition ppeer0 : ppeer := PPeer None false.
+Definition pget (s : pstate) (p : peer) : ppeer := default ppeer0 (pp s !! p).
+Definition ppar (s : pstate) (p : peer) : option puid := par (pget s p).
+Definition pchg (s : pstate) (p : peer) : bool := changed (pget s p).
+Definition plget (L : gmap (peer * peer) (list puid)) (a b : peer) : list puid := default [] (L !! (a, b)).
+Definition plink (s : pstate) (a b : peer) : list puid := plget (plinks s) a b.
+Definition ppexists (s : pstate) (p : peer) : bool := bool_decide (is_Some (pp s !! p)).
+
+(* ---------- channel operations -------------------------------------------------------------- *)
+
+Definition ppush_link (L : gmap (peer * peer) (list puid)) (a b : peer) (vs : list puid) :=
+  <[(a, b) := plget L a b ++ vs]> L.
+
+(* server.broadcast_message / repeat_except_for_client: one copy per destination *)
+Definition psend_to (L : gmap (peer * peer) (list puid)) (src : peer) (dsts : list peer) (vs : list puid) :=
+  foldr (fun d L => ppush_link L src d vs) L dsts.
+
+Definition pothers (src : peer) (l : list peer) : list peer := filter (fun c => c <> src) l.
+
+(* whom p announces to: the host broadcasts, a client sends to the host *)
+Definition pdsts (s : pstate) (p : peer) : list peer := if (p =? host)%N then pconn s else [host].
+
+(* what is announced / put in the snapshot: the current parent, if any *)
+Definition plink_msg (o : option puid) : list puid := match o with Some u => [u] | None => [] end.
+
+(* ---------- one event ------------------------------------------------------------------------- *)
+
+Definition pset_peer (s : pstate) (p : peer) (x : ppeer) : pstate :=
+  PState (<[p := x]> (pp s)) (pconn s) (plinks s).
+
+Definition pstep (s : pstate) (e : pevent) : option pstate :=
+  match e with
+  | PSet p u =>
+      (* set_parent / add_child: the Parent component is (re)stamped even if the parent is the same *)
+      match pp s !! p with
+      | None => None
+      | Some _ => Some (pset_peer s p (PPeer (Some u) true))
+      end
+  | PAnnounce p =>
+      (* Query<(&Parent, &SyncEntity), Changed<Parent>>: the CURRENT parent is announced *)
+      match pp s !! p with
+      | None => None
+      | Some x =>
+          if changed x then
+            Some (PState (<[p := PPeer (par x) false]> (pp s)) (pconn s)
+                         (psend_to (plinks s) p (pdsts s p) (plink_msg (par x))))
+          else Some s
+      end
+  | PDeliver src dst =>
+      match plink s src dst, pp s !! dst with
+      | u :: rest, Some x =>
+          let L := <[(src, dst) := rest]> (plinks s) in
+          (* the host relays unconditionally *)
+          let L := if (dst =? host)%N then psend_to L host (pothers src (pconn s)) [u] else L in
+          Some (PState (if bool_decide (par x = Some u) then pp s              (* same parent: nothing applied *)
+                        else <[dst := PPeer (Some u) true]> (pp s))            (* applied: Changed<Parent> *)
+                       (pconn s) L)
+      | _, _ => None
+      end
+  | PJoin c =>
+      if (c =? host)%N || bool_decide (c ∈ pconn s) || ppexists s c then None
+      else Some (PState (<[c := ppeer0]> (pp s)) (pconn s ++ [c])
+                        (ppush_link (plinks s) host c (plink_msg (ppar s host))))   (* the snapshot *)
+  end.
+
+Fixpoint prun (s : pstate) (tr : list pevent) : option pstate :=
+  match tr with
+  | [] => Some s
+  | e :: tr => match pstep s e with Some s' => prun s' tr | None => None end
+  end.
+
+(* host + clients 1..n, all connected, the child has no parent anywhere *)
+Definition pclients (n : nat) : list peer := N.of_nat <$> seq 1 n.
+Definition pinit (n : nat) : pstate :=
+  PState (list_to_map ((fun p => (p, ppeer0)) <$> (host :: pclients n))) (pclients n) ∅.
+
+(* ---------- quiescence ------------------------------------------------------------------------ *)
+
+Definition pquiescent (s : pstate) : Prop :=
+  map_Forall (fun _ l => l = []) (plinks s) /\ map_Forall (fun _ x => changed x = false) (pp s).
+Global Instance pquiescent_dec s : Decision (pquiescent s).
+Proof. unfold pquiescent. apply _. Defined.
+Definition pquiescentb (s : pstate) : bool := bool_decide (pquiescent s).
+
+(* ---------- well-formed states (an invariant of every run from [pinit n]) --------------------- *)
+
+Definition ppeers (s : pstate) (p : peer) : Prop := p = host \/ p ∈ pconn s.
+
+Definition pwf (s : pstate) : Prop :=
+  NoDup (pconn s) /\ host ∉ pconn s /\
+  (forall p, is_Some (pp s !! p) <-> ppeers s p) /\
+  (forall a b, plink s a b <> [] -> (a = host /\ b ∈ pconn s) \/ (b = host /\ a ∈ pconn s)).
+
+(* ---------- observations on traces ------------------------------------------------------------ *)
+
+Definition psets (tr : list pevent) : list (peer * puid) :=
+  omap (fun e => match e with PSet p u => Some (p, u) | _ => None end) tr.
+Definition pjoiners (tr : list pevent) : list peer :=
+  omap (fun e => match e with PJoin c => Some c | _ => None end) tr.
+
+(* the parent given by the last PSet of the trace ([t] if there is none) *)
+Definition target_after (t : option puid) (tr : list pevent) : option puid :=
+  foldl (fun t e => match e with PSet _ u => Some u | _ => t end) t tr.
+Definition last_set (tr : list pevent) : option puid := target_after None tr.
+
+(* announce / deliver only *)
+Definition drain_event (e : pevent) : Prop :=
+  match e with PAnnounce _ | PDeliver _ _ => True | _ => False end.
+Global Instance drain_event_dec e : Decision (drain_event e).
+Proof. destruct e; simpl; apply _. Defined.
+
+(* an event that is not a no-op: an announce with the flag raised, a delivery, a set, a join *)
+Definition effective (s : pstate) (e : pevent) : bool :=
+  match e with PAnnounce p => pchg s p | _ => true end.
+
+(* every state visited (including the first and the last) *)
+Fixpoint pstates (s : pstate) (tr : list pevent) : list pstate :=
+  s :: match tr with
+       | [] => []
+       | e :: tr => match pstep s e with Some s' => pstates s' tr | None => [] end
+       end.
+
+(* number of messages an event hands to the network *)
+Definition psent_by (s : pstate) (e : pevent) : nat :=
+  match e with
+  | PAnnounce p => if pchg s p then length (plink_msg (ppar s p)) * length (pdsts s p) else 0
+  | PDeliver src dst =>
+      match plink s src dst with
+      | _ :: _ => if (dst =? host)%N then length (pothers src (pconn s)) else 0
+      | [] => 0
+      end
+  | PJoin _ => length (plink_msg (ppar s host))
+  | PSet _ _ => 0
+  end.
+Fixpoint ptotal_sent (s : pstate) (tr : list pevent) : nat :=
+  match tr with
+  | [] => 0
+  | e :: tr => match pstep s e with Some s' => psent_by s e + ptotal_sent s' tr | None => 0 end
+  end.
+Fixpoint peffective_count (s : pstate) (tr : list pevent) : nat :=
+  match tr with
+  | [] => 0
+  | e :: tr => match pstep s e with
+               | Some s' => (if effective s e then 1 else 0) + peffective_count s' tr
+               | None => 0
+               end
+  end.
+
+(* ---------- the class of histories excluded from the convergence theorem -----------------------
+   [known_S19]: the child is re-parented to u while the exchange started by an earlier operation
+   (or by a join snapshot) is still in flight -- the state is not quiescent -- and the parent given
+   by the previous PSet is a different one.  For histories without joins this is exactly: two
+   consecutive PSet with different parents and no quiescent state in between (whoever issues them:
+   even the SAME peer re-parenting twice, defect S19, see [C05_pingpong_refuted]).
+   Re-parenting to the SAME parent again, by any peer, at any time, is not in the class.
+   [t] = the parent given by the last PSet. *)
+Fixpoint s19_from (t : option puid) (s : pstate) (tr : list pevent) : bool :=
+  match tr with
+  | [] => false
+  | e :: tr =>
+      match pstep s e with
+      | None => false
+      | Some s' =>
+          match e with
+          | PSet _ u => (negb (pquiescentb s) && negb (bool_decide (t = Some u))) || s19_from (Some u) s' tr
+          | _ => s19_from t s' tr
+          end
+      end
+  end.
+Definition known_S19 (s : pstate) (tr : list pevent) : bool := s19_from (ppar s host) s tr.
+
+(* [joins_safe]: at every PJoin the host has no parent for the child or already has the parent
+   given by the last PSet (true in particular for every join at a quiescent state of a history
+   outside [known_S19]).  Otherwise the snapshot carries the OLD parent, which the joiner applies and
+   echoes back to the host: see [join_any_moment_refuted]. *)
+Fixpoint js_from (t : option puid) (s : pstate) (tr : list pevent) : bool :=
+  match tr with
+  | [] => true
+  | e :: tr =>
+      match pstep s e with
+      | None => true
+      | Some s' =>
+          match e with
+          | PSet _ u => js_from (Some u) s' tr
+          | PJoin _ => bool_decide (ppar s host = None \/ ppar s host = t) && js_from t s' tr
+          | _ => js_from t s' tr
+          end
+      end
+  end.
+Definition joins_safe (s : pstate) (tr : list pevent) : bool := js_from (ppar s host) s tr.
+
+(* the stricter, state-free reading: every join happens at a quiescent state *)
+Fixpoint joins_quiescent (s : pstate) (tr : list pevent) : bool :=
+  match tr with
+  | [] => true
+  | e :: tr =>
+      match pstep s e with
+      | None => true
+      | Some s' =>
+          match e with
+          | PJoin _ => pquiescentb s && joins_quiescent s' tr
+          | _ => joins_quiescent s' tr
+          end
+      end
+  end.
+
+(* ---------- termination measure and traffic potential -------------------------------------------
+   For the exchange towards parent u, with n = number of connected clients:
+     pcnt   = number of peers that do not have u yet + number of raised flags
+     pups   = messages travelling towards the host,  pdowns = messages travelling from the host
+   [pmeasure] strictly decreases with every effective announce / deliver event of such an exchange;
+   [ppotential] + messages sent so far never increases. *)
+Definition sumf (f : peer -> nat) (l : list peer) : nat := foldr (fun c acc => f c + acc) 0 l.
+Definition pcnt1 (u : puid) (s : pstate) (p : peer) : nat :=
+  (if bool_decide (ppar s p = Some u) then 0 else 1) + (if pchg s p then 1 else 0).
+Definition pcnt (u : puid) (s : pstate) : nat := pcnt1 u s host + sumf (pcnt1 u s) (pconn s).
+Definition pups (s : pstate) : nat := sumf (fun c => length (plink s c host)) (pconn s).
+Definition pdowns (s : pstate) : nat := sumf (fun c => length (plink s host c)) (pconn s).
+Definition pmeasure (u : puid) (s : pstate) : nat :=
+  let n := length (pconn s) in (n + 1) * pcnt u s + n * pups s + pdowns s.
+Definition ppotential (u : puid) (s : pstate) : nat :=
+  let n := length (pconn s) in n * pcnt u s + (n - 1) * pups s.
+
+(* ---------- examples (non-vacuity of the model) ----------------------------------------------- *)
+
+Definition pview (s : pstate) (ps : list peer) : list (option puid) * bool := (ppar s <$> ps, pquiescentb s).
+
+(* 3 peers: client 1 sets the parent; the host and client 2 follow; client 2 echoes the link to the
+   host, which relays the echo to client 1; the host's own announcement reaches both clients; all
+   echoes find the parent already in place and die.  6 = 2*(2+1) messages. *)
+Definition ex_single : list pevent :=
+  [PSet 1 7; PAnnounce 1; PDeliver 1 0; PAnnounce 0; PDeliver 0 2; PDeliver 0 2; PAnnounce 2;
+   PDeliver 0 1; PDeliver 2 0; PDeliver 0 1]%N.
+Example ex_single_runs :
+  (fun s => pview s [0; 1; 2]%N) <$> prun (pinit 2) ex_single = Some ([Some 7; Some 7; Some 7]%N, true).
+Proof. vm_compute. reflexivity. Qed.
+Example ex_single_sent : ptotal_sent (pinit 2) ex_single = 6.
+Proof. vm_compute. reflexivity. Qed.
+Example ex_single_not_quiescent_before :
+  forallb (fun s => negb (pquiescentb s)) (tail (removelast (pstates (pinit 2) ex_single))) = true.
+Proof. vm_compute. reflexivity. Qed.
+
+(* the host sets the parent *)
+Example ex_host_sets :
+  (fun s => (pview s [0; 1; 2]%N, ptotal_sent (pinit 2) [PSet 0 7; PAnnounce 0; PDeliver 0 1; PDeliver 0 2;
+     PAnnounce 1; PAnnounce 2; PDeliver 1 0; PDeliver 2 0; PDeliver 0 1; PDeliver 0 2]%N)) <$>
+  prun (pinit 2) [PSet 0 7; PAnnounce 0; PDeliver 0 1; PDeliver 0 2;
+     PAnnounce 1; PAnnounce 2; PDeliver 1 0; PDeliver 2 0; PDeliver 0 1; PDeliver 0 2]%N
+  = Some (([Some 7; Some 7; Some 7]%N, true), 6).
+Proof. vm_compute. reflexivity. Qed.
+
+(* two re-parentings separated by quiescence, then a join at a quiescent state *)
+Example ex_sequential_join :
+  (fun s => pview s [0; 1; 2; 3]%N) <$>
+  prun (pinit 2) (ex_single ++
+    [PSet 2 9; PAnnounce 2; PDeliver 2 0; PDeliver 0 1; PAnnounce 0; PAnnounce 1; PDeliver 1 0;
+     PDeliver 0 1; PDeliver 0 2; PDeliver 0 2;
+     PJoin 3; PDeliver 0 3; PAnnounce 3; PDeliver 3 0; PDeliver 0 1; PDeliver 0 2])%N
+  = Some ([Some 9; Some 9; Some 9; Some 9]%N, true).
+Proof. vm_compute. reflexivity. Qed.
